@@ -9,7 +9,7 @@ Mirrors the code that exists, quirks included:
   — the greedy `.*` stops at a newline and backtracks to the *last* `}` of the line;
   under `(?i)` the class `[a-z]` also matches U+017F and U+212A (Go case folding);
 * `ReplaceAllStringFunc`'s scan (`scan`), first error wins, replacement `""` on error;
-* `getFirstBraceClosingIndex` (`firstClose`), including the skip of the character after `{`;
+* `getFirstBraceClosingIndex` (`firstClose`);
 * `getSubstitutionFunctionForTemplate` (`selectOp`): earliest occurrence, `:?` when none;
 * `DefaultReplacementAppliedFunc` (`repl`): re-match of the truncated text — a failed
   re-match is the `panic` outcome (`matchGroups` would index a nil slice);
@@ -98,12 +98,13 @@ def matchDollar : Str → Option (M × Str × Str)
     else none
   | _ => none
 
-/-- `getFirstBraceClosingIndex`; `open_` may go negative exactly as the Go `int` does -/
+/-- `getFirstBraceClosingIndex`; `open_` may go negative exactly as the Go `int` does.
+    (Before the `fix:` commit recorded in findings/C07.txt the character after every `{` was
+    skipped; that variant is kept as `firstCloseGoOld` in Neg/C07.lean.) -/
 def firstCloseGo : Str → Nat → Int → Option Nat
   | [], _, _ => none
   | '}' :: cs, i, o => if o - 1 == 0 then some i else firstCloseGo cs (i + 1) (o - 1)
-  | '{' :: [], _, _ => none
-  | '{' :: _ :: cs, i, o => firstCloseGo cs (i + 2) (o + 1)
+  | '{' :: cs, i, o => firstCloseGo cs (i + 1) (o + 1)
   | _ :: cs, i, o => firstCloseGo cs (i + 1) o
 
 def firstClose (s : Str) : Option Nat := firstCloseGo s 0 0
